@@ -18,6 +18,8 @@ def classify(r):
     what = r.get("what", "")
     if r.get("e") == "Abort":
         return abort_key(r)
+    if what == "TERM attribute is not a token attribute" and r.get("calls", 0) > 0:
+        return "F09-term-attr-from-pl-index"
     # completeness losses of the all-parses DAG (nothing spurious): recognised by the make_parse hook
     # events of this very parse
     if what in ("translation missing from the all-parses result", "minimal translation missing from the result",
@@ -38,7 +40,7 @@ def classify_trace(rec):
 
 def only(prop):
     def f(r):
-        if owner(r["what"], r["cfg"]) == prop:
+        if owner(r["what"], r["cfg"], r.get("calls", 0)) == prop:
             return classify(dict(r))
         return None
     return f
@@ -73,8 +75,10 @@ def check_C01(res, scratch, tier, seed):
     else:
         run_family(res, scratch, "F2r3s", mcgram_cfg([1], [11, 12], 2, 3, 5, False, [0], False), mk("sparse"),
                    builds=builds, mine=only("C01"))
+    corpus_part(res, scratch, tier, seed, "C01", matrix, ("curated", "chains", "random"), builds=builds, want_trees=False)
     res.cov["exhaustive"] = True
-    res.assumptions = ["small-scope: exhaustive only over the stated families", "vectors are computed by TLC from spec/Deriv.tla"]
+    res.assumptions = ["small-scope: exhaustive only over the stated families; the corpus (curated, chain families, seeded random) is a sample judged by TLC",
+                       "vectors are computed by TLC from spec/Deriv.tla"]
 
 
 def replay(path):
@@ -102,6 +106,7 @@ def check_trans(res, scratch, tier, seed, prop, matrix, rule):
     mk = lambda vec: blocks_from_vector(vec, matrix, codemap="ascii", mems=(0, 0, 1, 2))
     for tag, cfg in trans_families(tier):
         run_family(res, scratch, tag, cfg, mk, builds=builds, mine=only(prop), timeout=3000)
+    corpus_part(res, scratch, tier, seed, prop, matrix, ("curated", "random_trans"), trees=True, builds=builds, mems=(0, 0, 1, 2))
     res.cov["exhaustive"] = True
     res.assumptions = ["small-scope: exhaustive only over the stated families",
                        "expected translation sets are computed by TLC from spec/Trans.tla (least fixed point over spans)"]
@@ -145,6 +150,7 @@ def check_C10(res, scratch, tier, seed):
     if tier == "thorough":
         run_family(res, scratch, "F3", mcgram_cfg([1, 2], [11, 12], 3, 2, 0, False, [0], False), mk, builds=builds, mine=mine, timeout=3000)
     res.cov["distinct_nontrivial"] = sum(f["vectors"] for f in res.notes["families"])
+    corpus_part(res, scratch, tier, seed, "C10", [], ("curated", "chains", "random", "random_err"), builds=builds, define_only=True, mine=mine)
     res.cov["exhaustive"] = True
 
 
@@ -174,6 +180,7 @@ def check_recov(res, scratch, tier, seed, prop, rule):
     mk = lambda vec: blocks_from_vector(vec, matrix, codemap="ascii", mems=(0, 1), want_trees=False)
     for tag, cfg in recov_families(tier, prop):
         run_family(res, scratch, tag, cfg, mk, builds=builds, mine=only(prop), timeout=3000)
+    corpus_part(res, scratch, tier, seed, prop, matrix, ("curated", "random_err"), recov=(0 if prop == "C06" else 3), builds=builds, want_trees=False)
     res.cov["exhaustive"] = True
 
 
@@ -332,3 +339,33 @@ def check_C14(res, scratch, tier, seed):
 
 def check_C15(res, scratch, tier, seed):
     run_api(res, scratch, tier, seed, "C15", ("C15",))
+
+
+# ------------------------------------------------------------------ corpus part shared by the family checks
+import corpus as _corpus
+
+
+def corpus_entries(tier, seed, kinds):
+    ents = []
+    if "curated" in kinds:
+        ents += _corpus.curated()
+    if "chains" in kinds:
+        ents += _corpus.chain_family(5) + _corpus.loop_via_late_nullable()
+        if tier == "thorough":
+            ents += _corpus.chain_family(3) + _corpus.chain_family(7)
+    n = 150 if tier == "quick" else 1500
+    if "random" in kinds:
+        ents += _corpus.random_grammars(seed, n, maxlen=3)
+    if "random_trans" in kinds:
+        ents += _corpus.random_grammars(seed + 1000, n, nnts=3, nterms=2, maxrules=5, trans=True, maxlen=4)
+    if "random_err" in kinds:
+        ents += _corpus.random_grammars(seed + 2000, n, nnts=3, nterms=2, maxrules=5, err=True, maxlen=3)
+    return ents
+
+
+def corpus_part(res, scratch, tier, seed, prop, matrix, kinds, trees=False, recov=0, builds=None, define_only=False, mems=(0, 1),
+                mine=None, want_trees=True):
+    ents = corpus_entries(tier, seed, kinds)
+    vecs = corpus_vectors(res, scratch, "corpus_" + prop, ents, trees=trees, recov=recov, timeout=3000)
+    mk = lambda vec: blocks_from_vector(vec, matrix, codemap="ascii", mems=mems, define_only=define_only, want_trees=want_trees)
+    replay_vectors(res, vecs, mk, builds, mine or only(prop))
